@@ -4,11 +4,11 @@ import z3
 
 _VCS = []
 RLIMIT = int(os.environ.get('PYVC_RLIMIT', '600000000'))
-TIMEOUT_MS = int(os.environ.get('PYVC_TIMEOUT_MS', '120000'))
+TIMEOUT_MS = int(os.environ.get('PYVC_TIMEOUT_MS', '45000'))
 
 
 FAST_RLIMIT = int(os.environ.get('PYVC_FAST_RLIMIT', '3000000'))
-MBQI_TIMEOUT_MS = int(os.environ.get('PYVC_MBQI_TIMEOUT_MS', '40000'))
+MBQI_TIMEOUT_MS = int(os.environ.get('PYVC_MBQI_TIMEOUT_MS', '30000'))
 COVER_TIMEOUT_MS = int(os.environ.get('PYVC_COVER_TIMEOUT_MS', '15000'))      # vacuity (reachability) queries: 'unknown' is tolerated, only 'unsat' is an error
 EMATCH_RLIMIT = int(os.environ.get('PYVC_EMATCH_RLIMIT', '8000000'))
 
